@@ -55,6 +55,75 @@ def fields_read(body):
     return out
 
 
+def fields_read_deep(prog, body, param=1, seen=None):
+    """fields of the value behind parameter `param` that are read in `body` or in any function of the program that is handed that
+    value whole (`self.helper()`, `helper(self)`, through reborrows / copies of the reference).  Returns (field names, opaque): `opaque`
+    lists callees that received the whole value but whose body is not in the program (nothing is known about what they read)."""
+    seen = seen if seen is not None else set()
+    key = (body.id, param)
+    if key in seen:
+        return set(), []
+    seen.add(key)
+    alias = {param}
+    grew = True
+    while grew:
+        grew = False
+        for blk in body.blocks:
+            for st in blk["s"]:
+                d, r = st.get("d"), st.get("r") or {}
+                if not d or d["p"] or d["l"] in alias:
+                    continue
+                src = None
+                if r.get("k") in ("use", "cast"):
+                    o = r.get("a") or {}
+                    src = o.get("c") or o.get("m")
+                elif r.get("k") == "ref":
+                    src = r.get("p")
+                if src and src["l"] in alias and all(q == "*" for q in src["p"]):
+                    alias.add(d["l"])
+                    grew = True
+    out, opaque = set(), []
+
+    def scan_place(pl):
+        if pl and pl["l"] in alias:
+            for q in pl["p"]:
+                if isinstance(q, dict) and "f" in q:
+                    out.add(q["n"])
+                    break
+
+    def scan_op(o):
+        if isinstance(o, dict):
+            scan_place(o.get("c") or o.get("m"))
+
+    for blk in body.blocks:
+        for st in blk["s"]:
+            r = st.get("r")
+            if not r:
+                continue
+            for k in ("a", "b"):
+                scan_op(r.get(k))
+            if "p" in r:
+                scan_place(r["p"])
+            for o in r.get("ops", []) or []:
+                scan_op(o)
+        t = blk["t"]
+        if t["k"] == "call":
+            for i, a in enumerate(t["args"]):
+                scan_op(a)
+                pl = isinstance(a, dict) and (a.get("c") or a.get("m"))
+                if pl and pl["l"] in alias and all(q == "*" for q in pl["p"]):
+                    cb = prog.bodies.get(t.get("rid") or t.get("fid") or "")
+                    if cb is None:
+                        opaque.append(t.get("f") or "<indirect>")
+                    else:
+                        o2, q2 = fields_read_deep(prog, cb, i + 1, seen)
+                        out |= o2
+                        opaque += q2
+        elif t["k"] == "switch":
+            scan_op(t["d"])
+    return out, opaque
+
+
 def analyse32(ck):
     ob = Ob()
     prog = ck.prog
@@ -75,12 +144,14 @@ def analyse32(ck):
         fm = [b for b in prog.bodies.values() if b.kind == "AssocFn" and b.d.get("impl_trait", "").endswith("fmt::Debug") and (b.d.get("impl_adt") or "").endswith(ty) and b.name == "fmt"]
         if len(fm) == 1:
             ck.saw(fm[0])
-            rd = fields_read(fm[0])
-            for cl in prog.closures_of(fm[0]):
-                rd |= set()  # closures would capture self through upvars; none expected
+            # reads in the fmt body itself and in every function `self` is handed to whole (a helper method that derives a value
+            # from a sensitive field prints that field: seed C32d); a callee outside the program that receives `self` is unknown
+            rd, opaque = fields_read_deep(prog, fm[0])
+            rd |= fields_read(fm[0])
             leak = sorted(set(fields) & rd)
-            ob.add({"C32"}, not leak and not prog.closures_of(fm[0]), "TAINT", "debug-redacts/" + ty, "the Debug impl of %s never reads %s (fields it does read: %s)" % (ty, fields, sorted(rd)),
-                   "%s:%s" % (fm[0].file, fm[0].line), leak)
+            ob.add({"C32"}, not leak and not opaque and not prog.closures_of(fm[0]), "TAINT", "debug-redacts/" + ty,
+                   "the Debug impl of %s never reads %s, itself or through a function it passes `self` to (fields read: %s)" % (ty, fields, sorted(rd)),
+                   "%s:%s" % (fm[0].file, fm[0].line), {"leak": leak, "self passed to unknown code": opaque})
         else:
             ob.add({"C32"}, False, "ANCHOR", "debug-body/" + ty, "exactly one Debug::fmt body for %s (found %d)" % (ty, len(fm)))
     # the secret wrappers implement no rendering trait at all
